@@ -278,11 +278,24 @@ TRACE_ATTR = "_pta_trace"
 POST_HOOKS: dict = {}  # class -> [callable(obj, entry)] run after every top-level fluent call (returned or raised)
 
 
+TRACE_OWNER = "_pta_trace_owner"
+
+
 def trace_of(obj) -> list:
-    t = obj.__dict__.get(TRACE_ATTR)
+    """The call history of THIS object.  copy.copy / copy.deepcopy / pickle carry the attribute over to the copy (a shallow
+    copy even shares the list): a copy starts with the history of its original up to the moment of copying and continues on
+    its own."""
+    d = obj.__dict__
+    t = d.get(TRACE_ATTR)
     if t is None:
         t = []
-        obj.__dict__[TRACE_ATTR] = t
+        d[TRACE_ATTR] = t
+        d[TRACE_OWNER] = id(obj)
+    elif d.get(TRACE_OWNER) != id(obj):
+        t = [list(e) if isinstance(e, list) else e for e in t]
+        d[TRACE_ATTR] = t
+        d[TRACE_OWNER] = id(obj)
+        HUB.acc.count("objects_recognised_as_copies_of_a_traced_object")
     return t
 
 
